@@ -35,6 +35,14 @@ theorem kitty_emits (caps : Caps) (level : Nat) :
         simpa [joinSemi, chunkP_showNat] using this
       simp [sem, semCsi, semCsiEq, hp]
 
+theorem count1_pos (k : Nat) (h : 0 < k) : count1 (some k) = k := by
+  cases k with
+  | zero => omega
+  | succ k => rfl
+
+theorem satSucc_pos (n : Nat) : 0 < satSucc n := by
+  unfold satSucc usizeMax; split <;> omega
+
 /-- parameter bytes of `n ; m` -/
 theorem two_params (a b : Nat) :
     showNat a ++ [59] ++ showNat b = joinSemi [showNat a, showNat b] := by
@@ -126,7 +134,7 @@ theorem ok_decModeGet (caps : Caps) (mode : Nat) : Ok caps (.decModeGet mode) :=
 theorem ok_cursorTo (caps : Caps) (row col : Nat) : Ok caps (.cursorTo row col) := by
   obtain ⟨e, m⟩ := two_param_emits (satSucc row) (satSucc col) 72 (by omega)
   refine ⟨_, by simpa [encode] using e, ?_⟩
-  simp [m, semCsiPlain, meaning]
+  simp [m, semCsiPlain, meaning, count1_pos _ (satSucc_pos row), count1_pos _ (satSucc_pos col)]
 
 theorem ok_one (caps : Caps) (cmd : Cmd) (n fin : Nat) (hf : 0x40 ≤ fin ∧ fin < 0x7f)
     (he : encode caps cmd = csiB ++ showNat n ++ [fin])
@@ -147,20 +155,20 @@ theorem ok_cursorMove (caps : Caps) (row col : Int) : Ok caps (.cursorMove row c
       seqs.map sem = (if col > 0 then [Op.cuf col.toNat] else if col < 0 then [.cub col.natAbs] else []) := by
     by_cases h1 : col > 0
     · obtain ⟨e, m⟩ := one_param_emits col.toNat 67 (by omega)
-      exact ⟨_, by simpa [h1] using e, by simp [h1, m, semCsiPlain]⟩
+      exact ⟨_, by simpa [h1] using e, by simp [h1, m, semCsiPlain, count1_pos col.toNat (by omega)]⟩
     · by_cases h2 : col < 0
       · obtain ⟨e, m⟩ := one_param_emits col.natAbs 68 (by omega)
-        exact ⟨_, by simpa [h1, h2] using e, by simp [h1, h2, m, semCsiPlain]⟩
+        exact ⟨_, by simpa [h1, h2] using e, by simp [h1, h2, m, semCsiPlain, count1_pos col.natAbs (by omega)]⟩
       · exact ⟨[], by simpa [h1, h2] using Emits.nil, by simp [h1, h2]⟩
   have hrow : ∃ seqs, Emits (if row > 0 then csiB ++ showNat row.toNat ++ [66]
       else if row < 0 then csiB ++ showNat row.natAbs ++ [65] else []) seqs ∧
       seqs.map sem = (if row > 0 then [Op.cud row.toNat] else if row < 0 then [.cuu row.natAbs] else []) := by
     by_cases h1 : row > 0
     · obtain ⟨e, m⟩ := one_param_emits row.toNat 66 (by omega)
-      exact ⟨_, by simpa [h1] using e, by simp [h1, m, semCsiPlain]⟩
+      exact ⟨_, by simpa [h1] using e, by simp [h1, m, semCsiPlain, count1_pos row.toNat (by omega)]⟩
     · by_cases h2 : row < 0
       · obtain ⟨e, m⟩ := one_param_emits row.natAbs 65 (by omega)
-        exact ⟨_, by simpa [h1, h2] using e, by simp [h1, h2, m, semCsiPlain]⟩
+        exact ⟨_, by simpa [h1, h2] using e, by simp [h1, h2, m, semCsiPlain, count1_pos row.natAbs (by omega)]⟩
       · exact ⟨[], by simpa [h1, h2] using Emits.nil, by simp [h1, h2]⟩
   obtain ⟨sc, ec, mc⟩ := hcol
   obtain ⟨sr, er, mr⟩ := hrow
@@ -169,10 +177,10 @@ theorem ok_cursorMove (caps : Caps) (row col : Int) : Ok caps (.cursorMove row c
 theorem ok_scroll (caps : Caps) (n : Int) : Ok caps (.scroll n) := by
   by_cases h1 : n < 0
   · obtain ⟨e, m⟩ := one_param_emits n.natAbs 84 (by omega)
-    exact ⟨_, by simpa [encode, h1] using e, by simp [h1, m, semCsiPlain, meaning]⟩
+    exact ⟨_, by simpa [encode, h1] using e, by simp [h1, m, semCsiPlain, meaning, count1_pos n.natAbs (by omega)]⟩
   · by_cases h2 : n > 0
     · obtain ⟨e, m⟩ := one_param_emits n.toNat 83 (by omega)
-      exact ⟨_, by simpa [encode, h1, h2] using e, by simp [h1, h2, m, semCsiPlain, meaning]⟩
+      exact ⟨_, by simpa [encode, h1, h2] using e, by simp [h1, h2, m, semCsiPlain, meaning, count1_pos n.toNat (by omega)]⟩
     · exact ⟨[], by simpa [encode, h1, h2] using Emits.nil, by simp [h1, h2, meaning]⟩
 
 theorem ok_scrollRegion (caps : Caps) (start stop : Nat) : Ok caps (.scrollRegion start stop) := by
@@ -446,7 +454,11 @@ theorem C05_run (caps : Caps) (cmd : Cmd) (h : Valid cmd) : Ok caps cmd := by
   | eraseLineRight => exact ok_fixed caps _ [] 75 (by simp) (by omega) rfl (by simp only [meaning]; decide)
   | eraseLine => exact ok_fixed caps _ [50] 75 (by simp) (by omega) rfl (by simp only [meaning]; decide)
   | eraseScreen => exact ok_fixed caps _ [50] 74 (by simp) (by omega) rfl (by simp only [meaning]; decide)
-  | eraseChars n => exact ok_one caps _ n 88 (by omega) rfl (by simp [semCsiPlain, meaning])
+  | eraseChars n =>
+    by_cases h0 : n = 0
+    · exact ⟨[], by simpa [encode, h0] using Emits.nil, by simp [meaning, h0]⟩
+    · exact ok_one caps _ n 88 (by omega) (by simp [encode, h0])
+        (by simp [semCsiPlain, meaning, h0, count1_pos n (by omega)])
   | scroll n => exact ok_scroll caps n
   | scrollRegion start stop => exact ok_scrollRegion caps start stop
   | reset => exact ⟨[.esc [] 99], by simpa [encode] using Emits.esc 99 (by omega) (by omega) (by omega) (by omega), by simp [sem, meaning]⟩
